@@ -73,6 +73,22 @@ theorem compile_total_closed_defaults {pre : Bool} {o : Orders} {src : Program} 
     ∃ fuel, ∀ g, fuel ≤ g → compileWith pre g o src ≠ .fuel :=
   DC.compileWith_total_defaultsClosed hg hp
 
+/-- The typedef cycle search as it runs since the repair of finding D85 (`visitCycleM`: a shared memo of
+the types under which nothing leads back) gives the verdict of the plain search (`visitCycle`, exponential
+on shared typedefs) on the two witnesses: no cycle in `typedef map<T1,T1> T0 … typedef i32 T4`, a cycle in
+`typedef map<B,B> A  typedef list<A> B`; and the compiler accepts the first and rejects the second. (That
+the two searches agree on every program is not proved; the memoised one is what is tied to the code.) -/
+theorem cycle_search_witnesses :
+    ((gather progD85).map fun p =>
+      (visitCycle p (cycleFuel p) [] (.named 0 (nm "T0")), (visitCycleM p (cycleFuel p) [] [] (.named 0 (nm "T0"))).1,
+        moduleHasCycle p 0)) = some (false, false, false) ∧
+    ((gather progTypedefCycle).map fun p =>
+      (visitCycle p (cycleFuel p) [] (.named 0 (nm "A")), (visitCycleM p (cycleFuel p) [] [] (.named 0 (nm "A"))).1,
+        moduleHasCycle p 0)) = some (true, true, true) ∧
+    (compile 100 [] progD85).toOption.isSome = true ∧
+    (compile 100 [] progTypedefCycle).toOption.isSome = false := by
+  refine ⟨?_, ?_, ?_, ?_⟩ <;> decide +kernel
+
 /-- **Regression witnesses (D4, D6, D40, D5, D74 — repaired): the former non-terminating inputs end
 in an error.** On `const i32 a = b  const i32 b = a`, `const list<i32> c = c` (and the same
 through a struct default), `struct S {1: optional S f = {}}` and
